@@ -245,4 +245,19 @@ var props = []propCfg{
 		LevelNote: "Trusted: go/parser's local scope resolution for the _vN renaming; the identifier-based reference relation (a superset of the real one, so transformations never separate a definition from something it needs).",
 		DesignRef: "DESIGN.md section 4, C07",
 	},
+	{
+		ID: "C05", Pkg: "props/c05", Needs: []string{"fc", "fcperm"},
+		Tests: []testCfg{
+			{Name: "TestDeterminism", Rapid: true, Quick: 320, Thorough: 8000, ShardsQ: 16, ShardsT: 16},
+		},
+		Rule:      "programs of the many-dicts profile: >= 3 records (half of them with a twin record that has exactly the same field names, so unqualified literals are ambiguous) and >= 2 unions, 1..3 generated units with matches and lambdas, three package_info blocks (one for package _) with 3..4 entries each plus functions that use them and a function with 6 un-annotated parameters, some parameter annotations erased, and deliberately broken variants (a union arm removed => non-exhaustive match, an unknown identifier) for the accept/reject half. Each program is run under 9 enumeration orders: 3 repetitions of the unmodified fc in fresh processes (Go's random map order) and fc built with a build-time overlay of pkg/dict (derived from the current dict.go) whose Keys/Values/KVs return the entries sorted, reversed, rotated by a drawn amount and in 3 drawn shuffles. Oracle: every run has the same accept/reject decision and byte-identical gen_prog.go (diagnostic text is not compared). One evaluation = one fc run. Non-trivial = the program puts >= 2 entries into at least two of the dictionaries fc enumerates (record table, package_info tables, equivalence sets of inference variables) and was run under >= 3 orders; distinct = hash of the source.",
+		Technique: "metamorphic property-based testing (rapid) with controlled nondeterminism: the same input under adversarial dictionary enumeration orders (build-time overlay) and repeated processes must give identical output",
+		Assumptions: []string{
+			"fc consults no clock, environment or goroutine scheduling; dictionary order and process identity are the only sources of nondeterminism explored",
+			"the overlay changes only the order in which pkg/dict enumerates entries (it is derived from the working tree's dict.go at build time; if dict.go cannot be patched the run falls back to natural repetitions and says so in the evidence)",
+		},
+		LevelText: "Generated programs with many dictionary entries, each transpiled under adversarially permuted enumeration orders that are controlled, not sampled by luck; any dependence on order shows as a byte difference or a changed accept/reject decision and shrinks to a small program plus two orders. Exploration.",
+		LevelNote: "Trusted: the derived dict shim (60 lines) and go build -overlay.",
+		DesignRef: "DESIGN.md section 4, C05",
+	},
 }
